@@ -75,7 +75,7 @@ PROPS = {
                 "every single depth-first and iterative query (and of whole histories on deterministic rule sets) and is compared with the code; the Coq-defined monitor checks on the implementation's observations, for all three strategies: provable -> "
                 "goal true in the facts handed back AND in the many-valued forward closure of the rules on the facts asked on; (depth-first, conjunctive, monotone instances) goal at level max_depth of the bounded "
                 "forward derivation -> provable; verdict = verdict of a fresh search on the same facts.",
-        "level_note": "Partial: the completeness theorem excludes Or and mixed integer / float comparisons in rule conditions (monitored only); breadth-first search depends on hash-set iteration order and is monitored only. Trusted: Coq kernel; model of "
+        "level_note": "Partial: the completeness theorem excludes Or and mixed integer / float comparisons in rule conditions (monitored only; the evidence counts, under monitored_outside_theorem_hypotheses, the cases whose rule set and initial facts do not meet the theorem's hypotheses - a boolean transcription of them in Backward.thm_hyps_b); breadth-first search depends on hash-set iteration order and is monitored only. Trusted: Coq kernel; model of "
                 "search.rs / rule_executor.rs / condition_evaluator.rs / conclusion_index.rs after fixes 692df85 047f79f ab15463 dfacdc7 fe5aaf4 f980bee (Horn core: field-op-literal conditions, literal assignments, flat fact "
                 "names; no negated goals, TMS/RETE attachment, functions or multifield conditions); harness; extraction. Axioms: none.",
         "trusted_base": ["std HashSet iteration order of the root candidate set: the model predicts verdicts only where they cannot depend on it"],
